@@ -395,3 +395,61 @@ Proof.
   rewrite is_nan_spec in Ha.
   destruct (Prim2SF a) as [s|[|]| |[|] m e]; simpl in *; try discriminate; lia.
 Qed.
+
+(* ---------- sign of a product (FloatAxioms.mul_spec): no rounding analysis is needed, binary_round_aux keeps the sign ---------- *)
+(* "not negative": NaN, a zero of either sign, or a positive finite / infinite value *)
+Definition sf_nonneg (x : spec_float) : bool :=
+  match x with
+  | S754_nan => true
+  | S754_zero _ => true
+  | S754_infinity s => negb s
+  | S754_finite s _ _ => negb s
+  end.
+
+Lemma binary_round_aux_sign prec emax s m e l :
+  match binary_round_aux prec emax s m e l with
+  | S754_nan => True
+  | S754_zero s' | S754_infinity s' | S754_finite s' _ _ => s' = s
+  end.
+Proof.
+  unfold binary_round_aux.
+  destruct (shr_fexp prec emax m e l) as [mrs' e'].
+  destruct (shr_fexp prec emax _ e' loc_Exact) as [mrs'' e''].
+  destruct (shr_m mrs''); [reflexivity| |exact I].
+  destruct (e'' <=? emax - prec)%Z; reflexivity.
+Qed.
+
+Lemma SFmul_nonneg prec emax x y : sf_nonneg x = true -> sf_nonneg y = true -> sf_nonneg (SFmul prec emax x y) = true.
+Proof.
+  destruct x as [sx|sx| |sx mx ex], y as [sy|sy| |sy my ey]; simpl; intros Hx Hy; try reflexivity;
+    try (apply negb_true_iff in Hx; subst sx); try (apply negb_true_iff in Hy; subst sy); try reflexivity.
+  pose proof (binary_round_aux_sign prec emax (xorb false false) (Z.pos (mx * my)) (ex + ey) loc_Exact) as H.
+  simpl xorb in *. destruct (binary_round_aux _ _ _ _ _ _); simpl; try reflexivity; subst; reflexivity.
+Qed.
+
+Lemma SFabs_nonneg x : sf_nonneg (SFabs x) = true.
+Proof. destruct x; reflexivity. Qed.
+
+Lemma SFleb_zero_nonneg x : SFleb (S754_zero false) x = true -> sf_nonneg x = true.
+Proof. destruct x as [s|[|]| |[|] m e]; simpl; intro H; try reflexivity; discriminate. Qed.
+
+Lemma SFltb_nonneg_zero x : sf_nonneg x = true -> SFltb x (S754_zero false) = false.
+Proof. destruct x as [s|[|]| |[|] m e]; simpl; intro H; try reflexivity; discriminate. Qed.
+
+
+(* the product of two non-negative floats (NaN allowed on either side) is never below zero *)
+Theorem f64_mul_nonneg a b :
+  sf_nonneg (Prim2SF a) = true -> sf_nonneg (Prim2SF b) = true -> (a * b <? 0) = false.
+Proof.
+  intros Ha Hb. rewrite ltb_spec, mul_spec. change (Prim2SF 0) with (S754_zero false).
+  apply SFltb_nonneg_zero. apply SFmul_nonneg; assumption.
+Qed.
+
+Theorem f64_leb_zero_nonneg a : (0 <=? a) = true -> sf_nonneg (Prim2SF a) = true.
+Proof. rewrite leb_spec. change (Prim2SF 0) with (S754_zero false). apply SFleb_zero_nonneg. Qed.
+
+(* r * |m| with r >= 0 is never negative, whatever m is (any sign, zero, infinite, NaN) *)
+Theorem f64_mul_abs_not_negative r m : (0 <=? r) = true -> (r * abs m <? 0) = false.
+Proof.
+  intro H. apply f64_mul_nonneg; [apply f64_leb_zero_nonneg; exact H|]. rewrite abs_spec. apply SFabs_nonneg.
+Qed.
